@@ -37,6 +37,12 @@ def judge(specs, links, order, link_order):
                     info = c.connector.in_infos.get(i)
                     if info is None or c.inputs[i].info is None or c.inputs[i].info.grid is None or c.inputs[i].info.units is None or c.inputs[i].info.time is None:
                         bad.append(("input_info_incomplete", f"{n}.{i}"))
+                    else:
+                        src = next(a for a, b in links if b == (n, i))
+                        smeta = comps[src[0]].outputs[src[1]].info.meta
+                        for k, v in c.inputs[i].info.meta.items():
+                            if k not in smeta or smeta[k] != v:
+                                bad.append(("input_info_differs_from_exchanged", f"{n}.{i} has {k}={v!r}, source {src} has {smeta.get(k)!r}"))
                     d = c.connector.in_data.get(i)
                     want = cnode.expected_value(specs, links, n, i)
                     if d is None or not np.isclose(float(d.magnitude.ravel()[0]), want):
